@@ -3,7 +3,7 @@ from vf.checks import progbase
 
 
 def main():
-    R, code = progbase.run("C06", quick=(8, 40), thorough=(16, 500), extra={"nvalid": 3},
+    R, code = progbase.run("C06", quick=(16, 200), thorough=(32, 2500), extra={"nvalid": 3},
                            require=("trace_events_compared",))
     return code
 
